@@ -19,6 +19,17 @@ import (
 type coord struct {
 	path string
 	name string
+	// key: the response key, kept for id and __typename only: a helper the gateway adds under the plain name is
+	// not the field the client selected under an alias
+	key string
+}
+
+func mkCoord(path []string, name, key string) coord {
+	c := coord{path: strings.Join(path, "."), name: name}
+	if (name == "id" || name == "__typename") && key != name {
+		c.key = key
+	}
+	return c
 }
 
 // clientCoords flattens the client operation into (response path, field name) pairs.
@@ -36,7 +47,7 @@ func clientCoords(op *ast.OperationDefinition) map[coord]bool {
 				if key == "" {
 					key = x.Name
 				}
-				out[coord{strings.Join(path, "."), x.Name}] = true
+				out[mkCoord(path, x.Name, key)] = true
 				if len(x.SelectionSet) > 0 {
 					walk(append(append([]string{}, path...), key), x.SelectionSet, seen)
 				}
@@ -66,7 +77,7 @@ func planCoords(steps []*planner.QueryPlanStep, out map[coord][]string) {
 				if key == "" {
 					key = x.Name
 				}
-				out[coord{strings.Join(path, "."), x.Name}] = append(out[coord{strings.Join(path, "."), x.Name}], url)
+				out[mkCoord(path, x.Name, key)] = append(out[mkCoord(path, x.Name, key)], url)
 				if len(x.SelectionSet) > 0 {
 					walk(url, append(append([]string{}, path...), key), x.SelectionSet)
 				}
@@ -188,9 +199,13 @@ func c02Sigs(f *Fed, o *Obs) []string {
 				continue
 			}
 			// must be registered for scrubbing at that path
+			// (under the name of an object type: objects never answer with the name of an interface or union)
 			reg := false
 			if m, ok := plan.ScrubFields[c.path]; ok {
-				for _, fields := range m {
+				for tn, fields := range m {
+					if d := f.Merged.Types[tn]; d != nil && d.IsAbstractType() {
+						continue
+					}
 					for _, fn := range fields {
 						if fn == c.name {
 							reg = true
